@@ -122,7 +122,11 @@ func main() {
 	if shardN < 1 {
 		shardN = 1
 	}
-	logging.Initialize(logging.LevelNone, io.Discard, io.Discard)
+	if os.Getenv("VERIF_DEBUG") != "" {
+		logging.Initialize(logging.LevelDebug, os.Stderr, os.Stderr)
+	} else {
+		logging.Initialize(logging.LevelNone, io.Discard, io.Discard)
+	}
 	rng = rand.New(rand.NewSource(seed))
 	out = bufio.NewWriterSize(os.Stdout, 1<<20)
 	defer out.Flush()
